@@ -151,7 +151,15 @@ func c12SchedScenario(c *fw.Ctx, sp c12Spec) schedScenario {
 					rs := storage.NewRetentionScanner(config.Storage{RetentionPeriod: time.Hour, RetentionSleep: 0}, st)
 					ths := []vsched.Thread{
 						{Name: "scanner", F: func() { scanErr = rs.DoScan(ctx); scanDone = true }},
-						{Name: "deliverer", F: func() { inInit = false; add("n3", "boxe", 0); add("n1", "boxa", 0); add("n2", "boxd", 0) }},
+						{Name: "deliverer", F: func() {
+							inInit = false
+							add("n3", "boxe", 0)
+							add("n1", "boxa", 0)
+							add("n2", "boxd", 0)
+							// into the mailbox whose only (expired) message the remover takes away while the
+							// scan may already have listed it: what arrives now is young, whatever id it gets
+							add("n4", "boxb", 0)
+						}},
 						{Name: "remover", F: func() {
 							// a young message, the last message of a mailbox, and an EXPIRED message
 							// that the scanner may be about to purge itself
@@ -175,7 +183,7 @@ func c12SchedScenario(c *fw.Ctx, sp c12Spec) schedScenario {
 								addProb("expired-survived", fmt.Sprintf("message %s in %s was expired when the scan began, nothing else removed it, yet it is still there after the scan returned%s", k.key, k.mb, errNote))
 							}
 						}
-						for _, k := range []struct{ key, mb string }{{"n1", "boxa"}, {"n2", "boxd"}, {"n3", "boxe"}} {
+						for _, k := range []struct{ key, mb string }{{"n1", "boxa"}, {"n2", "boxd"}, {"n3", "boxe"}, {"n4", "boxb"}} {
 							if getID(k.key) != "" && !present(k.key, k.mb) {
 								addProb("young-removed", fmt.Sprintf("message %s delivered to %s during the scan is younger than the cutoff but is gone", k.key, k.mb))
 							}
